@@ -169,7 +169,7 @@ theorem skeleton_agrees :
     Gen.Skel.skeleton "Inbound.subchannel_resumeProducing" = [("if", "_connection.resumeProducing")] ∧
     Gen.Skel.skeleton "Inbound.subchannel_stopProducing" = [("if", "_connection.resumeProducing")] ∧
     dcpForwardsPause = true ∧ dcpForwardsResume = true := by
-  decide
+  decide +kernel
 
 /-! ## the environment hypothesis is needed (current code) -/
 
